@@ -266,6 +266,9 @@ class TriggerHandlerDecorator(Decorator, ABC):
     async def handle_dispatch(self, data: DispatchData) -> bool | None:
         """Handle a trigger dispatch call. Return False for stop dispatching."""
 
+    def dispatch_accepted(self, data: DispatchData) -> None:  # noqa: B027
+        """Called once all the trigger handlers accepted the dispatch, before the function runs."""
+
 
 class CallHandlerDecorator(Decorator, ABC):
     """Base class for call-based handlers."""
